@@ -484,6 +484,9 @@ func (h *Hashgraph) initEventCoordinates(event *Event) error {
 
 // update first descendant of each ancestor to point to event
 func (h *Hashgraph) updateAncestorFirstDescendant(event *Event) error {
+	if handled, err := simUpdateAncestors(h, event); handled {
+		return err
+	}
 	for _, c := range event.lastAncestors {
 		ah := c.Hash
 		for {
@@ -1293,6 +1296,9 @@ func (h *Hashgraph) GetFrame(roundReceived int) (*Frame, error) {
 // removed from the SignaturePool. The function also updates the AnchorBlock if
 // necessary.
 func (h *Hashgraph) ProcessSigPool() error {
+	if handled, err := simProcessSigPool(h); handled {
+		return err
+	}
 	h.logger.WithField("pending_signatures", h.PendingSignatures.Len()).Debug("ProcessSigPool()")
 
 	for _, bs := range h.PendingSignatures.Items() {
